@@ -1106,7 +1106,7 @@ def clip_lon180(geom: Geometry, tol=1e-6) -> Geometry:
         clip = _pick_clip(xx)
         return _clip_180(xx, clip), yy
 
-    if geom.geom_type.startswith("Multi"):
+    if geom.geom_type.startswith("Multi") and not geom.is_empty:
         return multigeom(g.transform(transformer) for g in geom.geoms)
 
     return geom.transform(transformer)
